@@ -127,6 +127,14 @@ def make_config(rng: random.Random):
                predictor=rng.choice([None, None, True, False]) if comp in ("deflate", "zstd", "lzw") else rng.choice([None, False]), comp_kw=comp_kw, spill_sz=rng.choice([0, 1 << 10, 1 << 16, None]), writes_per_chunk=rng.choice([None, 1, 2, 3]),
                stats=rng.choice([True, False, True]), bigtiff=rng.choice([True, True, False]), scheduler=rng.choice(["sync", "sync", "threads"]), workers=rng.choice([2, 4, 8]),
                order_seed=rng.randint(0, 10**6), data_seed=rng.randint(0, 10**6), crs=rng.choice(["EPSG:3857", "EPSG:4326", "EPSG:32633"]), dest=rng.choice(["file", "file", "file", "s3"]), data_kind=rng.choice(["random", "random", "patchy", "constant"]))
+    # pixel magnitudes: ordinary; huge (timestamps, accumulated counts, 1e17..1e150 floats: per-band statistics then render to very long decimal strings); tiny; special (NaN / inf
+    # among floats, values at the ends of the integer range); and the 64-bit integer types
+    cfg["magnitude"] = rng.choice(["ordinary", "ordinary", "ordinary", "huge", "huge", "tiny", "special"])
+    if rng.random() < 0.12:
+        cfg["dtype"] = rng.choice(["int64", "uint64"])
+        cfg["nodata"] = rng.choice([None, 0, -9999 if cfg["dtype"] == "int64" else 9999])
+        if cfg["compression"].startswith("lerc"):
+            cfg["compression"], cfg["comp_kw"] = "deflate", None  # LERC has no 64-bit integer mode
     if cfg["dest"] == "s3" and cfg["spill_sz"] == 0:
         cfg["spill_sz"] = 1 << 10  # for the S3 writer spill_sz=0 means "assemble in memory, do not upload" (returns the chunk)
     return cfg
@@ -149,11 +157,27 @@ def run_config(mon: Monitor, cfg, workdir: str) -> None:
     shape = {"YX": (ny, nx), "SYX": (ns, ny, nx), "YXS": (ny, nx, ns)}[layout]
     nprng = np.random.default_rng(cfg["data_seed"])
     dt = np.dtype(dtype)
+    mag = cfg.get("magnitude", "ordinary")
     if dt.kind == "f":
         data = nprng.uniform(-1000, 1000, size=shape).astype(dt)
+        if mag == "huge":
+            data = (nprng.uniform(0.5, 1.5, size=shape) * 10.0 ** int(nprng.choice([17, 17, 30] if dt.itemsize == 4 else [17, 17, 60, 150]))).astype(dt)
+        elif mag == "tiny":
+            data = (nprng.uniform(-1, 1, size=shape) * 1e-30).astype(dt)
+        elif mag == "special":
+            u = nprng.uniform(size=shape)
+            data[u < 0.2] = np.nan
+            data[(u > 0.2) & (u < 0.23)] = np.inf
+            data[(u > 0.23) & (u < 0.26)] = -np.inf
     else:
         info = np.iinfo(dt)
         data = nprng.integers(max(info.min, -30000), min(info.max, 30000), size=shape, dtype=np.int64).astype(dt)
+        if mag == "huge" and dt.itemsize >= 4:
+            data = np.array(info.max - 40000, dtype=dt) + nprng.integers(0, 30000, size=shape, dtype=np.int64).astype(dt)
+        elif mag == "special":
+            ext = np.array([info.min, info.min + 1, info.max - 1, info.max], dtype=dt)
+            u = nprng.uniform(size=shape)
+            data[u < 0.3] = ext[nprng.integers(0, 4, size=int((u < 0.3).sum()))]
     from .c15 import _patches
 
     _patches(data, layout, cfg.get("data_kind", "random"), None, nprng)  # constant areas: whole tiles / chunks of one value
@@ -233,7 +257,7 @@ def run_config(mon: Monitor, cfg, workdir: str) -> None:
         with rasterio.open(fn) as src:
             back = src.read()
             ok_shape = back.shape == (exp.shape[0], padded[0], padded[1])
-            ok_pix = back.shape[0] == exp.shape[0] and back.shape[1] >= ny and back.shape[2] >= nx and np.array_equal(back[:, :ny, :nx], exp) and str(back.dtype) == dtype
+            ok_pix = back.shape[0] == exp.shape[0] and back.shape[1] >= ny and back.shape[2] >= nx and np.array_equal(back[:, :ny, :nx], exp, equal_nan=dt.kind == "f") and str(back.dtype) == dtype
             ok_pad = bool((back[:, ny:, :] == fill).all() and (back[:, :, nx:] == fill).all())
             ok_geo = src.transform.almost_equals(gb.transform, 1e-12 * max(1.0, abs(gb.transform.c))) and src.crs is not None and src.crs.to_epsg() == int(cfg["crs"].split(":")[1])
             ok_nodata = (src.nodata == nodata) or (nodata is None and src.nodata is None)
@@ -278,7 +302,7 @@ def run_config(mon: Monitor, cfg, workdir: str) -> None:
                 lv0 = lv0.transpose(2, 0, 1) if lv0.ndim == 3 else lv0[None]
             elif lv0.ndim == 2:
                 lv0 = lv0[None]
-            ok_dec = lv0.shape[0] == exp.shape[0] and lv0.shape[1] >= ny and lv0.shape[2] >= nx and np.array_equal(lv0[:, :ny, :nx], exp)
+            ok_dec = lv0.shape[0] == exp.shape[0] and lv0.shape[1] >= ny and lv0.shape[2] >= nx and np.array_equal(lv0[:, :ny, :nx], exp, equal_nan=dt.kind == "f")
             ok_nn = True
             prev = lv0
             vy, vx = ny, nx  # extent of real (un-padded) pixels at the previous level
@@ -292,6 +316,10 @@ def run_config(mon: Monitor, cfg, workdir: str) -> None:
                     ok_nn = False
                     break
                 four = np.stack([prev[:, 0::2, 0::2], prev[:, 0::2, 1::2], prev[:, 1::2, 0::2], prev[:, 1::2, 1::2]])
+                if cur.dtype.kind in "iu" and cur.dtype.itemsize == 8:
+                    # overviews are made by GDAL's warper, which carries 64-bit integers as doubles: beyond 2^53 the copy is the nearest double, not the exact value
+                    # (the statement promises exact pixels at full resolution only; what is judged here is that each overview pixel comes from its own 2x2 parent block)
+                    four, cur = four.astype("float64"), cur.astype("float64")
                 eq = (four == cur[None]) | (np.isnan(four) & np.isnan(cur[None]) if cur.dtype.kind == "f" else False)
                 vy, vx = vy // 2, vx // 2  # judged where the whole 2x2 parent block is real data (padding values of overviews are not specified)
                 ok_nn = ok_nn and bool(eq.any(axis=0)[:, :vy, :vx].all())
@@ -390,6 +418,10 @@ CONFIG_WATCHDOG_S = 300
 WRITE_BOUND = 2_000_000
 
 PINNED = [
+    # very large magnitudes in every band with statistics on (seeded change C05-7: header room reserved for the statistics text, offsets computed before it is patched in)
+    dict(ny=70, nx=100, layout="SYX", ns=2, dtype="float64", chunks=[32, 32], band_chunk=1, nodata=None, blocksize=[32], compression="deflate", predictor=None, spill_sz=None, writes_per_chunk=None, stats=True, bigtiff=True, scheduler="sync", workers=2, order_seed=25, data_seed=25, crs="EPSG:3857", magnitude="huge"),
+    dict(ny=64, nx=48, layout="YX", ns=1, dtype="int64", chunks=[16, 16], band_chunk=1, nodata=None, blocksize=[16], compression="zstd", predictor=None, spill_sz=1024, writes_per_chunk=2, stats=True, bigtiff=False, scheduler="threads", workers=4, order_seed=26, data_seed=26, crs="EPSG:4326", magnitude="huge"),
+    dict(ny=33, nx=40, layout="YXS", ns=3, dtype="float32", chunks=[16, 16], band_chunk=3, nodata=None, blocksize=[16], compression="lzw", predictor=None, spill_sz=None, writes_per_chunk=None, stats=True, bigtiff=True, scheduler="sync", workers=2, order_seed=27, data_seed=27, crs="EPSG:32633", magnitude="special"),
     # LERC with a secondary codec and that codec's effort keyword (C05-6: the effort must not become LERC's error tolerance)
     dict(ny=70, nx=100, layout="YX", ns=1, dtype="int16", chunks=[32, 32], band_chunk=1, nodata=None, blocksize=[32], compression="lerc_zstd", comp_kw={"zstd_level": 9}, predictor=None, spill_sz=None, writes_per_chunk=None, stats=True, bigtiff=True, scheduler="sync", workers=2, order_seed=23, data_seed=23, crs="EPSG:3857"),
     dict(ny=64, nx=48, layout="SYX", ns=2, dtype="float32", chunks=[16, 16], band_chunk=1, nodata=-9999, blocksize=[16], compression="lerc_deflate", comp_kw={"zlevel": 6}, predictor=None, spill_sz=1024, writes_per_chunk=2, stats=False, bigtiff=True, scheduler="threads", workers=4, order_seed=24, data_seed=24, crs="EPSG:4326"),
